@@ -29,6 +29,9 @@ def _prepare_alt_harness():
     for f in ("Cargo.lock", ".cargo/config.toml"):
         shutil.copy(os.path.join(_src, f), os.path.join(HARNESS, f))
     t = open(os.path.join(_src, "Cargo.toml")).read().replace('"/repo/', '"%s/' % REPO)
+    # seed the scratch target directory with hard links to the main one: third-party crates are then already built
+    if not os.path.exists(os.path.join(HARNESS, "target")) and os.path.isdir(os.path.join(_src, "target")):
+        subprocess.run(["cp", "-al", os.path.join(_src, "target"), os.path.join(HARNESS, "target")])
     cur = os.path.join(HARNESS, "Cargo.toml")
     if not os.path.exists(cur) or open(cur).read() != t:
         open(cur, "w").write(t)
